@@ -72,6 +72,8 @@ def main():
         traceback.print_exc()
         broken.append({'kind': 'harness', 'what': 'harness exception %r' % (e,)})
 
+    for e in ctx.harness_errors[:5]:
+        broken.append({'kind': 'harness', 'what': 'harness phase failed: %s' % e})
     for d in ctx.disagreements[:5]:
         broken.append({'kind': 'correspondence', 'what': d['correspondence'], 'input': d['input'],
                        'impl': d['impl'], 'model': d['model']})
